@@ -65,7 +65,8 @@ fi
 BIN="$TGT/x86_64-unknown-linux-gnu/release/$TARGET"
 export VERIF_ROOT="$ROOT"
 # seed corpus and dictionary from the monitor's own generators
-VERIF_FUZZ_DUMP="$WORK/dump" "$BIN" -runs=1 >"$WORK/dump.log" 2>&1
+# (the target exits from inside the callback once the files are written; libFuzzer reports that as a crash of the empty input)
+VERIF_FUZZ_DUMP="$WORK/dump" "$BIN" -runs=1 -artifact_prefix="$WORK/art/" >"$WORK/dump.log" 2>&1
 mkdir -p "$WORK/corpus"; cp "$WORK/dump/corpus/"* "$WORK/corpus/" 2>/dev/null
 DICT=(); [ -s "$WORK/dump/dict.txt" ] && DICT=(-dict="$WORK/dump/dict.txt")
 export VERIF_FUZZ_FINDINGS="$WORK/findings"
